@@ -12,9 +12,10 @@ run time (mutex fields mechanically swapped for a recording type through the bui
 import json, os, random, re, shutil, threading, time
 
 from lib.common import *
+from props import sched_probe
 
 ID = "C20"
-COQ_TARGETS = ["ConcP/LockEdgesP.vo"]
+COQ_TARGETS = ["ConcP/LockEdgesP.vo", "ConcP/ScheduleP.vo"]
 META = {
     "text": "C20_atomic_calls_consistent (Conc/Atomic.v): a micro-step machine - any number of goroutines, each any sequence of AddConn/RemoveConn calls made of the individual updates (registry, routing table, read the count, publish the count read) between Lock and Unlock of the manager's mutex - under EVERY schedule ends with registry = routing table = published count; C20_early_unlock_refuted: releasing the mutex before the cluster is told loses that (the seeded lock-scope changes). Theorems (Properties/C20.v): for any ranking of mutexes respected by every goroutine no reachable state of the "
             "threads x mutexes machine is a deadlock, every run is bounded and can be completed (any number of threads and "
@@ -22,10 +23,10 @@ META = {
             "lock graph extracted from the CURRENT source by harness/lockorder is acyclic (re-computed in Coq every run) and "
             "lies inside manager.mu < gossip clusterState.mu < syncer.mu < cluster State.mu < leaves; after completed "
             "AddConn/RemoveConn calls registry = routing table = published state. Partial: data-race freedom, absence of "
-            "panics and wall-clock completion are tested by a -race stress run with a watchdog on every call, not proved.",
+            "panics and wall-clock completion are tested by a -race stress run with a watchdog on every call, not proved. Round 6: the extractor also emits per-function facts (lock_holders: this function acquires mutex B - itself or through what it calls - while it holds mutex A); C20_registry_changes_publish_under_manager_lock proves on the regenerated table that AddConn and RemoveConn update the cluster state and publish to gossip while holding the manager's mutex, i.e. the hypothesis under which C20_atomic_calls_consistent speaks about the code.",
     "note": "Trusted: Coq kernel+VM, the SSA lock-order extractor (x/tools v0.29.0 CHA+VTA call graph), the Go race detector, "
             "the stress harness. RWMutex read locks modelled as exclusive. Channel waits are not modelled.",
-    "technique": "Coq proof over a model regenerated from the source (lock relation extracted by SSA analysis) + race-detector/"
+    "technique": "Coq proof over a model regenerated from the source (lock relation extracted by SSA analysis, incl. per-function lock facts: the hypothesis of the atomicity theorem) + race-detector/"
                  "watchdog stress of the real code + quiescent consistency monitor (+ run-time validation of the extractor in "
                  "the thorough tier)",
 }
@@ -631,12 +632,22 @@ def run(ctx):
         extra_assumptions.append("note: expected edge(s) %s were not found by the extractor on this tree (code no longer nests these locks, or the call graph lost them)" % missing_expected)
     log("[C20] edges=%d cycles=%d inverse=%d ops=%d stress=%s (%.1fs)" % (len(edges), len(cycles), len(inverse), total_ops,
                                                                         [c["wall_s"] for c in stress_cov], time.time() - t_start))
+    # the periodic tasks themselves: real scheduleFunc with intervals down to 50 us (finding S1) against Conc/Schedule.v
+    try:
+        scov, sviol = sched_probe.run(ctx, ID)
+    except BuildError as e:
+        scov, sviol = {"build_failed": True}, [{"what": "harness-build: the scheduler probe no longer compiles against the tree: " + str(e)[-400:], "found_input": False,
+                                                 "replay_obj": {"broken": "corr:C20:sched:harness-build", "log": str(e)[-3000:]}}]
+    cov["scheduler"] = scov
+    violations += sviol
     return {"coverage": cov, "violations": violations, "known": known, "assumptions": extra_assumptions}
 
 
 def replay(path, wd):
     obj = json.load(open(path))
     kind = obj.get("kind")
+    if kind == "sched":
+        return sched_probe.replay(obj, wd)
     if kind == "stress":
         binary = build_harness(STRESS_PKG, race=True, dirs=["stress"])
         res = run_stress(binary, obj["input"], wd, "replay")
